@@ -321,7 +321,10 @@ def judge_frame(obs, ex, m):
     enva = [(canon(c), _lay(c.tail)) for c in ra if c.tag not in ('roCreate', 'mosromgrmeta')]
     if envb != enva or rb.attrib != ra.attrib:
         fail('envelope-changed', _frame_diff(envb, enva) or 'root attributes changed')
-    if k == 'RunningOrderReplace':
+    if rcb is not None and rca is None:
+        fail('roCreate-gone', 'the running order has no roCreate element after the merge')
+        return fails
+    if k == 'RunningOrderReplace' or rcb is None:
         return fails
     if canon(rcb) == canon(rca):
         return fails            # nothing at all changed: nothing un-named changed
